@@ -26,6 +26,9 @@ type vfC18Case struct {
 	// its deadline. In the phases that have no keep-alives (the tail of a file: final ack, MD5) the peer sees pause + latency of
 	// silence, so success is demanded only while pause + latency stays 400 ms under the timeout.
 	LatencyMs int `json:"latency_ms,omitempty"`
+	// PeerDies: the connection goes silent in both directions the moment the pause begins (the peer or the link died while the user
+	// was looking at the question). After "continue" the paused side must still end, with an error, within its timeout.
+	PeerDies bool `json:"peer_dies,omitempty"`
 }
 
 type vfC18Res struct {
@@ -70,6 +73,10 @@ func vfC18Run(cs vfC18Case, res *vfC18Res) string {
 						sess.c2s.setLatency(0)
 						sess.s2c.setLatency(0)
 					}()
+				}
+				if cs.PeerDies {
+					sess.wire("c2s").setSilent(true)
+					sess.wire("s2c").setSilent(true)
 				}
 				if cs.Via == "api" {
 					t.pauseTransferringFiles()
@@ -186,6 +193,12 @@ func vfC18Run(cs vfC18Case, res *vfC18Res) string {
 	}
 	res.covered = covered
 	demanded := pause+time.Duration(cs.LatencyMs)*time.Millisecond <= T-400*time.Millisecond || (covered && pause <= T-300*time.Millisecond)
+	if cs.PeerDies {
+		demanded = false // nothing can succeed any more; both sides must have ended (checked above), and success must not be claimed
+		if res.paused > 0 && (serverOK || clientOK) && same != len(e.fileRel) {
+			return fmt.Sprintf("the peer died during the pause, yet a side reported success with %d of %d files: %s", same, len(e.fileRel), run.describe())
+		}
+	}
 	if demanded && !(serverOK && clientOK) {
 		tl := ""
 		if len(wins) > 0 {
@@ -236,6 +249,9 @@ func vfC18Eval(c *vfCollector, cs vfC18Case, res *vfC18Res) {
 	if cs.LatencyMs > 0 {
 		labels = append(labels, "slow_link_during_pause")
 	}
+	if cs.PeerDies {
+		labels = append(labels, "peer_dies_during_pause")
+	}
 	if res.covered {
 		labels = append(labels, "pause_covered_by_keepalives")
 	}
@@ -280,10 +296,14 @@ func TestVF_C18(t *testing.T) {
 			c.violation("dryrun", sc, msg)
 			t.Fatalf("%s", msg)
 		}
-		type prof struct{ ms, cycles, latency int }
-		profiles := []prof{{50, 1, 0}, {300, 1, 0}, {300, 3, 0}, {1800, 1, 0}, {sc.Cfg.Timeout*1000 - 400, 1, 600}}
+		type prof struct {
+			ms, cycles, latency int
+			dies                bool
+		}
+		profiles := []prof{{50, 1, 0, false}, {300, 1, 0, false}, {300, 3, 0, false}, {1800, 1, 0, false}, {sc.Cfg.Timeout*1000 - 400, 1, 600, false},
+			{sc.Cfg.Timeout*1000 + 600, 1, 0, true}, {900, 1, 0, true}}
 		if long {
-			profiles = append(profiles, prof{3000, 1, 0}, prof{4500, 1, 0}, prof{1200, 2, 0}, prof{sc.Cfg.Timeout*1000 - 400, 1, 0}, prof{1200, 2, 300}, prof{sc.Cfg.Timeout*1000 - 400, 1, 400})
+			profiles = append(profiles, prof{3000, 1, 0, false}, prof{4500, 1, 0, false}, prof{1200, 2, 0, false}, prof{sc.Cfg.Timeout*1000 - 400, 1, 0, false}, prof{1200, 2, 300, false}, prof{sc.Cfg.Timeout*1000 - 400, 1, 400, false})
 		}
 		for _, via := range []string{"api", "ui"} {
 			for _, pr := range profiles {
@@ -294,11 +314,11 @@ func TestVF_C18(t *testing.T) {
 					}
 					for k := 1; k < n; k++ {
 						for _, before := range []bool{true, false} {
-							h := vfPointHash(sc.Name, via, pr.ms, pr.cycles, dir, k, before, pr.latency)
+							h := vfPointHash(sc.Name, via, pr.ms, pr.cycles, dir, k, before, pr.latency, pr.dies)
 							if int(h%uint64(shards)) != shard || (int(h/uint64(shards)%1000003)+seed)%stride != 0 {
 								continue
 							}
-							cs := vfC18Case{Scen: sc, Ev: vfEvent{Dir: dir, K: k, Before: before}, PauseMs: pr.ms, Cycles: pr.cycles, Via: via, LatencyMs: pr.latency}
+							cs := vfC18Case{Scen: sc, Ev: vfEvent{Dir: dir, K: k, Before: before}, PauseMs: pr.ms, Cycles: pr.cycles, Via: via, LatencyMs: pr.latency, PeerDies: pr.dies}
 							var res vfC18Res
 							m := vfGuard(func() string { return vfC18Run(cs, &res) })
 							if m != "" && strings.Contains(m, "still running") {
